@@ -206,6 +206,16 @@ def answer (l : Line) : Option Ans :=
     let want := [Val.int s.length, Val.ofInts g0, Val.ofInts g1]
     pure { model := want, tags := ["groupby:nan-keys"], nontrivial := s.any (fun x => x % 3 == 0) && s.length ≥ 2
            spec := if isPanic res then some "groupby:no-panic" else clause (res == want) "groupby:every-element-exactly-once:nan-keys" }
+  | "groupbyzero", [sv] => do
+    -- GroupBy over float64 ELEMENTS with +0.0 (even multiples of 3) and -0.0 (odd multiples of 3, shown as -1000000)
+    -- under the sign bit as key: every element goes to the part ITS OWN key dictates, in order
+    let s ← sv.ints?
+    let neg : Int → Bool := fun x => (x % 3 == 0 && x % 2 != 0) || (x % 3 != 0 && x < 0)
+    let rend : Int → Int := fun x => if x % 3 == 0 then (if x % 2 == 0 then 0 else -1000000) else x
+    let want := [Val.ofInts ((s.filter (fun x => !neg x)).map rend), Val.ofInts ((s.filter neg).map rend)]
+    pure { model := want, tags := ["groupby:signed-zeros"]
+           nontrivial := s.any (fun x => x % 3 == 0 && x % 2 == 0) && s.any (fun x => x % 3 == 0 && x % 2 != 0)
+           spec := if isPanic res then some "groupby:no-panic" else clause (res == want) "groupby:each-in-the-part-its-key-dictates:signed-zeros" }
   | op@"zip", [mv] | op@"unzip", [mv] => do
     let m ← matrix? mv
     let tr := op == "unzip"
